@@ -350,14 +350,14 @@ def arr_setitem(interp, v, idx, val, numba, node):
                 one = ops.equal(src.n, 1)
                 if not ctx.branch(ops.lor(same, one)):
                     raise RaiseSignal('ValueError', 'could not broadcast input array')
-                if one is True and same is not True:
-                    x0 = src.fn(0)
-                    v.fn = lambda k, old=old, start=start, stop=stop, x0=x0: _sel(in_range(k, start, stop), x0, old(k))
-                    return
-                if one is not False and same is not True:
-                    raise OutOfSubset('possible broadcast of a length-1 array in slice assignment')
-                v.fn = lambda k, old=old, start=start, stop=stop, sf=src.fn: _sel(in_range(k, start, stop),
-                                                                                   lambda: sf(ops.arith('-', k, start)), old(k))
+                def pickv(k, sf=src.fn, start=start, one=one):
+                    if one is True:
+                        return sf(0)
+                    if one is False:
+                        return sf(ops.arith('-', k, start))
+                    return ops.ite(one.t, sf(0), sf(ops.arith('-', k, start)))
+                v.fn = lambda k, old=old, start=start, stop=stop, pickv=pickv: _sel(in_range(k, start, stop),
+                                                                                    lambda: pickv(k), old(k))
                 return
             # Python list slice assignment may change the length
             tail_shift = ops.arith('-', src.n, ln)
